@@ -25,6 +25,14 @@ var solvers = []solverCfg{
 		}
 		return append(a, f)
 	}},
+	{"z3-new-a2", func(f string, t int, seed int) []string {
+		// the previous simplex core: decides some linear-arithmetic-heavy goals the default core does not
+		a := []string{"z3-new", fmt.Sprintf("-T:%d", t), "smt.arith.solver=2"}
+		if seed != 0 {
+			a = append(a, fmt.Sprintf("smt.random_seed=%d", seed))
+		}
+		return append(a, f)
+	}},
 	{"z3", func(f string, t int, seed int) []string {
 		a := []string{"/usr/bin/z3", fmt.Sprintf("-T:%d", t)}
 		if seed != 0 {
@@ -118,7 +126,7 @@ func discharge(obls []*Obligation, opt solveOpts) {
 	os.MkdirAll(opt.workDir, 0o755)
 	names := opt.solvers
 	if len(names) == 0 {
-		names = []string{"z3-new", "z3"}
+		names = []string{"z3-new", "z3-new-a2", "z3"}
 	}
 	var cfgs []solverCfg
 	for _, n := range names {
